@@ -132,19 +132,56 @@ def _arff_type(t):
     tl = t.lower()
     if tl in ("numeric", "real", "integer"): return ("num", None)
     if tl == "string": return ("str", None)
-    if t.startswith("{"): return ("nom", t[1:-1].split(","))
+    if t.startswith("{"): return ("nom", [_unquote(l) for l in t[1:-1].split(",")])   # a level may be written '' (the empty level) or '?'
     if t.startswith("x:") and t[2:] in _PLAIN: return ("x", t[2:])       # LazyDense/LazySparse with a user encoder
     raise Invalid(t)
 
+def _unquote(l):
+    return l[1:-1] if len(l) >= 2 and l[0] == l[-1] == "'" else l
+
 def _arff_cell(tok, typ, levels):
+    """the cell a column of that type holds for that token.  Whether '' / '?' stand for a missing value is the column
+    type's business: a numeric column can not hold them (None), a string column holds '' as an ordinary value ('?' is
+    its missing marker), a nominal column holds them when it declares them as levels; a custom encoder decides itself"""
     if typ == "x":
-        if tok in ("?", ""): raise Invalid("missing token under a custom encoder")
+        if tok in ("?", ""):
+            try: return _apply(_PLAIN[levels], tok)
+            except Invalid: raise Invalid("missing token under a custom encoder that raises on it")
         return _apply(_PLAIN[levels], tok)
-    if tok == "?": return None
-    if typ == "num": return float(tok)
-    if typ == "str": return tok
-    if tok not in levels: raise Invalid("unknown level")
-    return MCat(tok, levels)
+    if typ == "num": return None if tok in ("?", "") else float(tok)
+    if typ == "str": return None if tok == "?" else tok
+    if tok in levels: return MCat(tok, levels)
+    if tok in ("?", ""): return None
+    raise Invalid("unknown level")
+
+def marker_features(layout, src):
+    """ARFF sources only: which kinds of cells hold a token that looks like a missing marker ('' or '?'):
+    value.<column kind> where the column's type makes it an ordinary value, missing.<column kind> where it is missing"""
+    if not src["kind"].startswith("arff"): return set()
+    types = [_arff_type(a[1]) for a in src["attrs"]]
+    if layout != "dense": types = [(ty, (["0"] + lv) if ty == "nom" else lv) for ty, lv in types]
+    out = set()
+    for row in src["rows"]:
+        for i, tok in (enumerate(row) if layout == "dense" else row):
+            if tok in ("?", ""):
+                what = "missing" if _arff_cell(tok, *types[i]) is None else "value"
+                out.add(f"{what}.{types[i][0]}" + ("-empty" if tok == "" and what == "missing" else ""))
+                if what == "value": out.add("value@" + layout); out.add("value@" + src["kind"])
+    return out
+
+def demarked(layout, src):
+    """the same ARFF source with every marker-looking token that is an ordinary value replaced by an unremarkable
+    value of its column (None when there is no such token or no replacement): used by the shrinker only"""
+    if not src["kind"].startswith("arff"): return None
+    types = [_arff_type(a[1]) for a in src["attrs"]]
+    def other(i, tok):
+        ty, lv = types[i]
+        if tok not in ("?", "") or ty == "num" or (ty == "str" and tok == "?") or (ty == "nom" and tok not in lv): return tok
+        if ty == "nom": return next((l for l in lv if l not in ("?", "")), tok)
+        return "1" if ty == "x" else "a"
+    if layout == "dense": rows = [[other(i, t) for i, t in enumerate(r)] for r in src["rows"]]
+    else: rows = [[[i, other(i, t)] for i, t in r] for r in src["rows"]]
+    return None if rows == src["rows"] else dict(src, rows=rows)
 
 def model_source(layout, src):
     st = State(layout)
@@ -154,6 +191,11 @@ def model_source(layout, src):
         if len(set(names)) != len(names) or not names: raise Invalid("attr names")
         types = [_arff_type(a[1]) for a in src["attrs"]]
         if kind == "arff_text" and any(ty == "x" for ty, _ in types): raise Invalid("custom encoders need arff_lazy")
+        if kind == "arff_text":
+            # text can only carry what the plain dialect can write: an empty field between two commas of a dense line
+            if any(ty == "nom" and "?" in lv for ty, lv in types): raise Invalid("a '?' level needs quoted data")
+            toks = [t for r in src["rows"] for t in (r if layout == "dense" else [p[1] for p in r])]
+            if "" in toks and (layout != "dense" or len(names) == 1): raise Invalid("an empty value needs quoted data")
         st.arff_fresh = True
         if layout == "dense":
             st._ncols = len(names)
